@@ -32,10 +32,17 @@ func contents() map[string]any {
 		[]intoto.Inspection{gen.Inspection("i1", []string{"true"}, nil, nil)}, map[string]intoto.Key{k1.ID: k1.Pub})
 	lay1 := gen.Layout(gen.FarFuture, []intoto.Step{gen.Step("s"+nasty, 2, []string{k1.ID}, [][]string{{"ALLOW", nasty}}, [][]string{{"DISALLOW", "*"}})}, nil, map[string]intoto.Key{k1.ID: k1.Pub})
 	lay1.Readme = nasty
-	return map[string]any{"link-plain": l0, "link-nasty": l1, "layout-plain": lay0, "layout-nasty": lay1}
+	// every collection absent (nil: written as null) resp. present and empty: what is signed must be what is
+	// read back, whichever of the two it was
+	lnil := intoto.Link{Type: "link", Name: "nil-collections"}
+	lempty := intoto.Link{Type: "link", Name: "empty-collections", Materials: map[string]intoto.HashObj{}, Products: map[string]intoto.HashObj{},
+		ByProducts: map[string]interface{}{}, Command: []string{}, Environment: map[string]interface{}{}}
+	laynil := intoto.Layout{Type: "layout", Expires: gen.FarFuture}
+	return map[string]any{"link-plain": l0, "link-nasty": l1, "layout-plain": lay0, "layout-nasty": lay1,
+		"link-nil-collections": lnil, "link-empty-collections": lempty, "layout-nil-collections": laynil}
 }
 
-var contentOrder = []string{"link-plain", "layout-plain", "link-nasty", "layout-nasty"}
+var contentOrder = []string{"link-plain", "layout-plain", "link-nasty", "layout-nasty", "link-nil-collections", "link-empty-collections", "layout-nil-collections"}
 
 func poolKeys(thorough bool) []string {
 	if thorough {
